@@ -58,6 +58,22 @@ def systematic(tier):
             if not any(a['act'] in ('pause', 'play') for a in schedule):
                 continue
             cases.append({'program': program, 'schedule': schedule, 'opts': {'final_play': True}, 'origin': f'systematic:{name}'})
+        # alternating pause/play bursts at one position (every interruption still in flight when the next request arrives)
+        for pos in range(0, ticks + 1):
+            for repeats in (2, 3):
+                for tail in ((), ('pause',)):
+                    burst = ['pause', 'play'] * repeats + list(tail)
+                    cases.append({'program': program, 'schedule': [{'act': kind, 'at': pos} for kind in burst],
+                                  'opts': {'final_play': True}, 'origin': f'systematic:{name}:burst'})
+        # pauses requested from inside the notifications of a pause / play pair placed at every position
+        for pos in range(0, ticks + 1):
+            for gap in (0, 1):
+                for event in ('played', 'paused', 'running', 'waiting'):
+                    if event in ('running', 'waiting') and not notify.get(event):
+                        continue
+                    schedule = [{'act': 'pause', 'at': pos}, {'act': 'play', 'at': pos + gap}, {'act': 'pause', 'on': [event, 0]}]
+                    cases.append({'program': program, 'schedule': schedule, 'opts': {'final_play': True},
+                                  'origin': f'systematic:{name}:listener'})
     _sys_cache[tier] = cases
     return cases
 
@@ -74,12 +90,14 @@ def random_case(rng, tier):
     schedule = common.gen_schedule(rng, kinds, max_actions, ticks, notify, p_listener=0.12 if rng.random() < 0.5 else 0.0,
                                    must=['pause', 'play'])
     for action in schedule:
-        if 'on' in action and (action['act'] != 'pause' or action['on'][0] == 'played'):
-            # only pause requests are also issued from inside listener notifications of state transitions; play and resume
-            # stay between loop callbacks, as the property quantifies (a pause issued from inside the 'played' notification
-            # legitimately leaves play() returning on a paused process)
+        if 'on' in action and action['act'] != 'pause':
+            # only pause requests are also issued from inside listener notifications; play and resume stay between loop
+            # callbacks, as the property quantifies (a pause issued from inside the 'played' notification legitimately leaves
+            # that play() returning on a paused process: the oracle knows)
             action.pop('on')
             action['at'] = rng.randint(0, ticks + 1)
+    if rng.random() < 0.1 and any(a['act'] == 'play' for a in schedule):
+        schedule.append({'act': 'pause', 'on': ['played', 0]})
     for action in schedule:
         if action['act'] == 'complete':
             # completes with the value the drive-out would use, so that the context is the same in every run
@@ -164,7 +182,14 @@ def _oracle(engine, result, reference, drive):
             result.violate(f'{kind}_raises', f'{type(record.raised).__name__}@{record.context}',
                            f'{kind}() raised {record.raised!r} in context {record.context}')
         if kind == 'play' and record.raised is None and record.pre_live:
-            if record.result is not True or record.post_paused:
+            # (a pause requested from inside the 'played' notification of this very call is a new request, made after the
+            # process was un-paused: being paused again when play() returns is then what was asked for)
+            done = next((j for j in range(record.seq, len(events)) if events[j][0] == 'acted' and events[j][1] == record.index),
+                        len(events))
+            nested_pause = any(e[0] == 'call' and e[2] == 'pause' for e in events[record.seq:done])
+            if nested_pause:
+                result.counters['probe:pause_from_played_notification'] += 1
+            if record.result is not True or (record.post_paused and not nested_pause):
                 result.violate('play_not_playing', record.context,
                                f'play() returned {record.result!r}, paused afterwards={record.post_paused}')
     for kind, live, value in world.self_results:
